@@ -34,7 +34,7 @@ fn main() {
             }
         }
         "worker" => parent::worker(&a[2], &a[3], a[4].parse().unwrap(), a[5].parse().unwrap(), a[6].parse().unwrap()),
-        "dumpdir" => exec::dumpdir(&a[2], &a[3], &a[4], &a[5], &a[6], &a[7]),
+        "dumpdir" => exec::dumpdir(&a[2], &a[3], &a[4], &a[5], &a[6], &a[7], a.get(8).map(|s| s.as_str()).unwrap_or("null")),
         "decode" => {
             let t = tables::Tables::default();
             let st = decode::decode_dir(std::path::Path::new(&a[2]), &a[3], &t, usize::MAX);
